@@ -49,6 +49,7 @@ func roundAt(neg bool, num, den *big.Int, e10 int, mode Mode, minq int, free boo
 // Prepared is an exact value analysed once, from which each mode's result is picked cheaply.
 type Prepared struct {
 	neg, free, zero bool
+	noTiny          bool
 	F               *big.Int
 	q, minq, l      int
 	half            int
@@ -136,7 +137,7 @@ func (p *Prepared) Pick(mode Mode) (Val, RInfo) {
 	if q == minq && free && L <= 35 {
 		info.Event = "subnormal"
 	}
-	if F.Sign() == 0 && info.Guard == 0 {
+	if F.Sign() == 0 && info.Guard == 0 && !p.noTiny {
 		// tiny rule: magnitude below a tenth of the smallest quantum
 		info.Event = "tiny0"
 		return Val{Class: Fin, Neg: neg, C: new(big.Int), Q: minq}, info
@@ -167,6 +168,9 @@ func (p *Prepared) Pick(mode Mode) (Val, RInfo) {
 			info.Event = "seam"
 		}
 	}
+	if C.Sign() == 0 {
+		return Val{Class: Fin, Neg: neg, C: new(big.Int), Q: minq}, info
+	}
 	if q > MaxQ {
 		// representable only if C*10^(q-MaxQ) <= Cmax
 		if q-MaxQ <= 36 {
@@ -196,6 +200,16 @@ func Quantize(v Val, quantum int, mode Mode) (Val, RInfo) {
 		return v, RInfo{Exact: true}
 	}
 	return roundAt(v.Neg, v.C, bigOne, v.Q, mode, quantum, false)
+}
+
+// QuantizeNoTiny is Quantize without the tiny rule (Ceil/Floor: least/greatest multiple).
+func QuantizeNoTiny(v Val, quantum int, mode Mode) (Val, RInfo) {
+	if v.Q >= quantum || v.C.Sign() == 0 {
+		return v, RInfo{Exact: true}
+	}
+	p := prep(v.Neg, v.C, bigOne, v.Q, quantum, false)
+	p.noTiny = true
+	return p.Pick(mode)
 }
 
 // Fit reports whether the finite value c*10^q is a member of the format, returning a
